@@ -79,10 +79,18 @@ func strs(a []string) L {
 	return l
 }
 
-func crit(id, typ string) M { return M{"id": id, "type": typ} }
+// crit: typ "" leaves the type out of the request (the documented default is gain)
+func crit(id, typ string) M {
+	if typ == "" {
+		return M{"id": id}
+	}
+	return M{"id": id, "type": typ}
+}
 
 func critR(id, typ string, lo, hi float64) M {
-	return M{"id": id, "type": typ, "valuesRange": M{"min": lo, "max": hi}}
+	m := crit(id, typ)
+	m["valuesRange"] = M{"min": lo, "max": hi}
+	return m
 }
 
 // perms for permutation-invariance clauses: all n! when n<=full, else rotations + reversal.
